@@ -1,0 +1,16 @@
+//go:build verif
+
+// Machine-checked contracts for package layer4 (comment-only; read by /verif/gvc).
+// This file contains no declarations: building with -tags verif yields the same binary.
+
+package layer4
+
+// wfcx: what every handler and matcher may rely on about the connection it is given.
+//@ pred wfcx(cx *Connection) = cx != nil && cx.Conn != nil && cx.Context != nil && cx.Logger != nil
+//@   && 0 <= cx.offset && cx.offset <= len(cx.buf)
+//@   && istype(ctxval(cx.Context, ReplacerCtxKey), *caddy.Replacer) && ctxval(cx.Context, ReplacerCtxKey).(*caddy.Replacer) != nil
+//@   && istype(ctxval(cx.Context, VarsCtxKey), map[string]any) && ctxval(cx.Context, VarsCtxKey).(map[string]any) != nil
+
+// wfm: the connection as a matcher sees it (frozen: reads are served from the buffer only).
+//@ pred wfm(cx *Connection) = wfcx(cx) && cx.matching
+//@ ghostfn avail(cx *Connection) int = len(cx.buf) - cx.offset
